@@ -73,7 +73,7 @@ type PathResult struct {
 	Witness     *Witness
 	Funcs       map[*ssa.Function]bool
 	Inconclusive []string
-	QFeas, QAssert, QSat, QUnsat, QUnknown, CacheHits, SynHits, OneShot, AltSolver int
+	QFeas, QAssert, QSat, QUnsat, QUnknown, CacheHits, SynHits, OneShot, AltSolver, SolverRestarts int
 	Stubs       map[string]bool
 }
 
@@ -300,12 +300,20 @@ func (p *Path) query(c *Term, assertion bool) string {
 	p.sol.Send("(push 1)")
 	p.sol.Send("(assert " + c.Ref() + ")")
 	r := p.sol.CheckSat()
-	p.checkSolverErr(p.sol, &r)
 	var m *Model
-	if r == "sat" {
-		m = p.getModel(p.sol, func(t *Term) bool { return p.emitted[t] }, func(n string) bool { return p.declared[n] })
+	if p.sol.errSeen != "" || p.sol.dead {
+		// a solver-side error (e.g. a cancelled command) leaves the incremental state unreliable: start a
+		// fresh process, re-assert the path condition, and decide this query one-shot
+		p.res.SolverRestarts++
+		p.sol.errSeen = ""
+		p.resync()
+		r = "unknown"
+	} else {
+		if r == "sat" {
+			m = p.getModel(p.sol, func(t *Term) bool { return p.emitted[t] }, func(n string) bool { return p.declared[n] })
+		}
+		p.sol.Send("(pop 1)")
 	}
-	p.sol.Send("(pop 1)")
 	if p.sol.dead {
 		panic(pathEnd{endAborted, "solver died"})
 	}
@@ -356,6 +364,20 @@ func (p *Path) query(c *Term, assertion bool) string {
 		p.res.QUnknown++
 	}
 	return r
+}
+
+// resync restarts the incremental solver and re-establishes the current path condition in it.
+func (p *Path) resync() {
+	if err := p.sol.Restart(); err != nil {
+		panic(pathEnd{endAborted, "cannot restart solver: " + err.Error()})
+	}
+	p.emitted = map[*Term]bool{}
+	p.declared = map[string]bool{}
+	p.sol.Send("(push 1)")
+	for _, c := range p.pc {
+		p.define(c)
+		p.sol.Send("(assert " + c.Ref() + ")")
+	}
 }
 
 func (p *Path) checkSolverErr(sol *Solver, r *string) {
